@@ -177,6 +177,7 @@ Definition print_prim (sc : list (Z * N) * list Z) : list N :=
   print_dsum (fst sc) ++ bar ++ prseq (snd sc).
 
 Definition semicolon : N := 59.
+Definition colon : N := 58.
 
 Definition run (line : list N) : list N :=
   match split sp line with
@@ -209,10 +210,11 @@ Definition run (line : list N) : list N :=
         end
       else r_badcase
   | [f; l; b; a; c] =>
-      (* parallel <limit> <n> <alg;...> <observed;...>: exec.Parallel returns the results in the
+      (* parallel <limit>[:<logger mode>] <n> <alg;...> <observed;...>: the logger mode (how the harness
+         feeds SetLogger) is not observable in the results; exec.Parallel returns the results in the
          order of the algorithms whatever the limit (C12_returned_complete) *)
       if str_eqb f $"parallel" then
-        match parse_decN l, parse_hexZ b, map_opt parse_alg (split semicolon a),
+        match parse_decN (hd [] (split colon l)), parse_hexZ b, map_opt parse_alg (split semicolon a),
               map_opt parse_observed (split semicolon c) with
         | Some lim, Some n, Some algs, Some orcs =>
             if (lim =? 0) || (n <? 0)%Z || negb (Nat.eqb (length algs) (length orcs)) then r_badcase
